@@ -1,24 +1,27 @@
 #!/bin/bash
-# apply every seeded change to /repo in turn, run the quick check of its property, record the outcome, undo the change.
-# (never run while another check is using /repo)
-cd /verif
+# apply every seeded change in turn to the repository under test, run the quick check of its property, record the outcome, undo the change.
+# The repository is $VERIF_REPO (default /repo; never run against /repo while another check is using it).  With `vp run --with-repo`:
+#   vp run --with-repo -- bash -c 'VERIF_REPO=$VP_RUN_REPO tools/seed_sweep.sh'
+cd "$(dirname "$0")/.."
+REPO=${VERIF_REPO:-/repo}
+export VERIF_REPO=$REPO
 OUT=seeded/SWEEP.md
-echo "# seed sweep $(date -u +%FT%TZ) on /repo $(git -C /repo log --format=%h -1)" > $OUT
+echo "# seed sweep $(date -u +%FT%TZ) on $(git -C $REPO log --format=%h -1)" > $OUT
 echo "" >> $OUT
 echo "| seed | property | exit | outcome |" >> $OUT
 echo "|------|----------|------|---------|" >> $OUT
-git -C /repo status --short | grep -q . && { echo "/repo not clean"; exit 2; }
+git -C $REPO status --short | grep -q . && { echo "$REPO not clean"; exit 2; }
 for d in seeded/*/; do
   n=$(basename $d)
   p=$(python3 -c "import json;print(json.load(open('$d/meta.json'))['property'])")
-  if ! git -C /repo apply --check /verif/$d/patch.diff 2>/dev/null; then echo "| $n | $p | - | patch does not apply |" >> $OUT; continue; fi
-  git -C /repo apply /verif/$d/patch.diff
+  if ! git -C $REPO apply --check $PWD/$d/patch.diff 2>/dev/null; then echo "| $n | $p | - | patch does not apply |" >> $OUT; continue; fi
+  git -C $REPO apply $PWD/$d/patch.diff
   ./check $p --tier quick > /tmp/sweep_$n.log 2>&1; rc=$?
-  git -C /repo checkout -- .
+  git -C $REPO checkout -- .
   v=$(grep -c "^VIOLATION" /tmp/sweep_$n.log)
-  first=$(grep "^VIOLATION" /tmp/sweep_$n.log | head -1 | sed 's/.*replay=\/verif\/build\/replay\///' | cut -c1-110)
+  first=$(grep "^VIOLATION" /tmp/sweep_$n.log | head -1 | sed 's/.*replay=.*build\/replay\///' | cut -c1-110)
   und=$(grep -c "^UNDECIDED" /tmp/sweep_$n.log)
   echo "| $n | $p | $rc | $v violation line(s), $und undecided line(s); first: $first |" >> $OUT
 done
-./tools/refresh_evidence.sh > /dev/null 2>&1   # committed evidence must describe the unchanged tree
+if [ "$REPO" = "/repo" ]; then ./tools/refresh_evidence.sh > /dev/null 2>&1; fi   # committed evidence must describe the unchanged tree
 cat $OUT
